@@ -303,3 +303,9 @@ def check(run, project):
                        module=mod, node=st, func="<module>", construct=norm(st)[:80])
     run.ob("P2", keyspace >= 200, f"key space of the encrypted-layout cache = {keyspace} parameter areas", "parameter areas not found")
     run.floor("P1", 20, "store / mutation sites")
+    # P5: a stream decode is its messages decoded one by one: nothing the response decode is given may be left over from an
+    # earlier command/response pair of the same stream (the loop-carried-argument rule of C09-S2, re-used here)
+    from ..report import RuleView
+    from . import c09
+    c09.check(RuleView(run, "S2", "P5"), project)
+
